@@ -946,7 +946,7 @@ def check_c02(rep, tier, seed, wd, replay):
         base = {"file": f["file"], "base": f}
         cases.append(dict(base, id=f["id"] + "_idx", ropts=["mdcb"], ops=ops))
         cases.append(dict(base, id=f["id"] + "_scan", ropts=["index:0", "mdcb"], ops=[["messages"]]))
-        cases.append(dict(base, id=f["id"] + "_log", ropts=["order:log"], ops=[["messages"]]))
+        cases.append(dict(base, id=f["id"] + "_log", ropts=["order:log"], ops=[["messages", "range"]]))      # through mcap.Range
         cases.append(dict(base, id=f["id"] + "_rev", ropts=["order:rev", "mdcb"], ops=[["messages", "into"]]))
     go, model, nd = read_corr(rep, cases, wd, "c02")
     st = {"indexed_reads": 0, "fallback_scans": 0, "errors": 0, "random_access": 0, "md_callbacks": 0}
